@@ -125,10 +125,33 @@ def struct_checks_missing_after_merge():
     return 'bool', cbool(ok)
 
 
+def float_properties_pass_through_float_call():
+    """FloatRange.min/max are properties validated by FloatRange() and relative_resolution by FloatRange(0): a limit
+    is never the negative zero or infinite, the relative resolution is a finite number (idem_dt of C01/IdemDefs.v)"""
+    c = _cls('FloatRange')
+    ok = True
+    for name, want in (('min', "Stub('FloatRange')"), ('max', "Stub('FloatRange')"),
+                       ('relative_resolution', "Stub('FloatRange',0)")):
+        v = find_assign(c, name)
+        ok = ok and isinstance(v, ast.Call) and src(v.func) == 'Property' and len(v.args) >= 2 \
+            and src(v.args[1]).replace(' ', '') == want
+    call = src(find_func(c, '__call__')).replace(' ', '')
+    ok = ok and 'value+=0.0' in call and 'returnclamp(-sys.float_info.max,value,sys.float_info.max)' in call
+    return 'bool', cbool(ok)
+
+
+def enum_refuses_duplicates():
+    """frappy.lib.enum.Enum: adding a member whose value (or name) is already taken raises TypeError"""
+    c = find_class(parse('frappy/lib/enum.py'), 'Enum')
+    s = src(find_func(c, '__init__')).replace(' ', '')
+    ok = 'ifself.get(k,v)!=v:' in s and 'ifself.get(v,k)!=k:' in s and s.count('raiseTypeError') >= 2
+    return 'bool', cbool(ok)
+
+
 FACTS = [default_min_int, default_max_int, unlimited_is_2_64, clamp_is_median_of_sorted, float_validate_shape,
          int_validate_shape, scaled_validate_shape, generic_import_is_call, containers_wrap_element_errors,
          sequences_check_before_import, sequences_reject_str_bytes_dict, struct_requires_dict, blob_import_strict,
-         struct_checks_missing_after_merge]
+         struct_checks_missing_after_merge, float_properties_pass_through_float_call, enum_refuses_duplicates]
 
 _FP = ['FloatRange', 'IntRange', 'ScaledInteger', 'EnumType', 'BLOBType', 'StringType', 'BoolType', 'ArrayOf', 'TupleOf',
        'StructOf']
